@@ -9,6 +9,31 @@ STACK_THEOREMS = ['FlexVerif.C11Stack.' + t for t in ('ensure_spec', 'push_refin
 
 STACK_THEOREMS += ['FlexVerif.C11StackC99.' + t for t in ('push_same', 'pop_same', 'switch_same', 'ensure_same', 'stack_refines_c99', 'current_after_c99')]
 
+STACK_THEOREMS += ['FlexVerif.C11ScanBuf.' + t for t in ('scanBuffer_shape', 'guard_eval', 'scanBuffer_refuses', 'scanBuffer_accepts',
+                                                         'scanned_fields', 'scanBuffer_spec')]
+
+
+def regen_scanbuf():
+    """translate yy_scan_buffer() of a scanner flex generates now into lean/FlexVerif/Gen/ScanBuf.lean"""
+    import os, fcntl
+    from . import flexrun, gen_scanbuf, common
+    flex, src = flexrun.build_flex()
+    try:
+        body, info = gen_scanbuf.generate(flex, flexrun.scratch_root())
+    except gen_scanbuf.TranslateError as e:
+        return None, str(e)
+    path = os.path.join(common.LEAN_DIR, 'FlexVerif', 'Gen', 'ScanBuf.lean')
+    lock = open(os.path.join(common.LEAN_DIR, '.build.lock'), 'w')
+    fcntl.flock(lock, fcntl.LOCK_EX)
+    try:
+        old = open(path).read() if os.path.exists(path) else ''
+        if old != body:
+            open(path, 'w').write(body)
+    finally:
+        fcntl.flock(lock, fcntl.LOCK_UN)
+        lock.close()
+    return info, None
+
 
 def regen_bufstack():
     """translate yyensure_buffer_stack / yypush_buffer_state / yypop_buffer_state / yy_switch_to_buffer / yy_current_buffer() from a
@@ -38,6 +63,9 @@ def regen_bufstack():
 
 
 def run(ctx):
+    info2, err2 = regen_scanbuf()
+    if err2:
+        ctx.violation('translator of yy_scan_buffer() gave up: ' + err2, {'error': err2}, no_input=True)
     info, err = regen_bufstack()
     if err:
         ctx.violation('translator of the buffer stack functions gave up: ' + err, {'error': err}, no_input=True)
